@@ -5,14 +5,6 @@ from common import set_field
 
 NAME = "SmartAccount"
 
-_base = dict(
-    Signers={"s1", "s2", "d"}, Unknown={"u"}, Pols={"p1", "p2"},
-    CTs={"D", "c1", "c2", "w1"},
-    LimRules=15, LimSigners=15, LimPolicies=5,
-    Now0=10, BUG="none",
-)
-
-
 def _json(ev):
     return ev
 
@@ -83,26 +75,79 @@ def _c_id_reused(ev):
 
 
 F = frozenset
-# encodings (TLC configuration files cannot express tuples): a policy behaviour is 2*k + (1 if enforce refuses);
-# a rule is the set of its signer and policy names ("dup": the first signer is listed twice); a batch is one
-# context a or the pair 10*a + b over 1 = c1, 2 = c2, 3 = c3, 4 = w1, 5 = v1; valid_until offset 99 = None
-_quick = dict(
-    _base,
-    PolCfgs={0, 4, 3},
+
+
+def _powerset(xs):
+    xs = sorted(xs)
+    return {F(x for i, x in enumerate(xs) if m >> i & 1) for m in range(1 << len(xs))}
+
+
+_base = dict(
+    Signers={"s1", "s2", "d"}, Unknown={"u"}, Pols={"p1", "p2"},
+    LimRules=15, LimSigners=15, LimPolicies=5,      # the documented limits (out of reach here; see `cap`)
+    Now0=10, BUG="none", Emit=False, EmitMod=1, DTs={0},
+)
+# Encodings (TLC configuration files cannot express tuples): the joint behaviour of the two policies is
+# c1 + 1000*c2 with c = 2*k + (1 if enforce refuses), k = number of authenticated signers can_enforce demands
+# (99: never accepts); a rule is the set of its signer and policy names ("dup": the first signer is listed
+# twice); a batch is one context a or the pair 10*a + b over 1 = c1, 2 = c2, 3 = c3, 4 = w1, 5 = v1 (w1 with
+# constructor arguments); valid_until offset 99 = None, otherwise ledger of the call + offset.
+_ALWAYS, _K1, _K2, _K1_REFUSING, _NEVER = 0, 2, 4, 3, 198
+
+# all supplied-signer sets x one invalid signature, rule sets of <= 2 rules, one management call after init
+_code = dict(
+    _base, CTs={"D", "c1", "c2", "w1"},
+    PolCfgs={_ALWAYS, _K2, _K1_REFUSING + 1000 * _NEVER, 1000 * _K1},
+    Supplied=_powerset({"s1", "s2", "d", "u"}),
     InitRules={F({"s1"}), F({"s1", "d", "p1"})},
     RSets={F({"p1"}), F({"s1"}), F({"s2", "d"}), F({"s1", "p1", "p2"})},
-    VUoffs={99, 1},
-    DTs={0}, CheckDTs={0, 1, 2},
+    VUoffs={99, 1}, CheckDTs={0, 1, 2},
     Batches={1, 4, 12, 51},
-    BadMode="one", GenRules=2, Depth=1,
+    BadMode="one", GenRules=2, Depth=1, Emit=True, EmitMod=3,
+)
+_code_thorough = dict(
+    PolCfgs={_ALWAYS, _K2, _K1_REFUSING + 1000 * _NEVER, 1000 * _K1, _K1 + 1000 * _K2},
+    InitRules={F({"s1"}), F({"s1", "d", "p1"}), F({"p2"})},
+    RSets={F({"p1"}), F({"s1"}), F({"s2", "d"}), F({"s1", "p1", "p2"}), F({"s1", "s2", "d"}), F({"d", "p2"}),
+           F({"s1", "s2", "p1"}), F({"s1", "dup"}), F({"s2"}), F({"s1", "s2"}), F({"p1", "p2"}), F({"d"})},
+    VUoffs={99, -1, 0, 1},
+    Batches={1, 2, 4, 12, 11, 51},
+    BadMode="any", EmitMod=40,
+)
+# histories: rule sets of <= 3 rules built by two (thorough: three) management calls, fewer check variants
+_hist = dict(
+    _base, CTs={"D", "c1", "w1"},
+    PolCfgs={_ALWAYS, _K2 + 1000 * _K1_REFUSING},
+    Supplied={F(), F({"s1"}), F({"s1", "s2", "d"}), F({"s2", "d", "u"})},
+    InitRules={F({"s1", "d", "p1"})},
+    RSets={F({"s1"}), F({"s2", "d"}), F({"s1", "p1", "p2"})},
+    VUoffs={99, 1}, CheckDTs={0, 1, 2},
+    Batches={1, 41},
+    BadMode="one", GenRules=3, Depth=2, Emit=True, EmitMod=3,
+)
+_hist_thorough = dict(Depth=3, EmitMod=40)
+# capacity, scaled: at most 2 rules, 2 signers, 1 policy (the real limits are exercised by the random driver)
+_cap = dict(
+    _base, CTs={"D", "c1"}, LimRules=2, LimSigners=2, LimPolicies=1,
+    PolCfgs={_ALWAYS}, Supplied={F()}, Batches=set(),
+    InitRules={F({"s1"})},
+    RSets={F({"s2"}), F({"s1", "s2"}), F({"s1", "s2", "d"}), F({"p1"}), F({"p1", "p2"}), F({"s2", "d", "p2"})},
+    VUoffs={99}, CheckDTs={0},
+    BadMode="one", GenRules=3, Depth=3,
 )
 
 MODEL = dict(
     bin="smartaccount",
     trace="Trace_SmartAccount",
     mc=[
-        dict(name="code", module="MC_SmartAccount", constants=dict(_quick, Emit=True),
+        dict(name="code", module="MC_SmartAccount", constants=_code, thorough=_code_thorough,
              invariants=["NoViolation", "Refines"]),
+        dict(name="hist", module="MC_SmartAccount", constants=_hist, thorough=_hist_thorough,
+             invariants=["NoViolation", "Refines"]),
+        dict(name="cap", module="MC_SmartAccount", constants=_cap, invariants=["NoViolation", "Refines"]),
+        # vacuity guard: the monitors do fail on a model that tries Default rules before the type-specific ones
+        dict(name="nonvacuous", module="MC_SmartAccount", constants=dict(_hist, BUG="default_first", Emit=False, Depth=1),
+             invariants=["NoViolation"], expect="violation"),
     ],
     quick=dict(sample=4000, drive_runs=160, drive_len=40),
     thorough=dict(sample=None, drive_runs=4000, drive_len=60),
